@@ -496,6 +496,8 @@ func (db *MultiBucketBackend) PutObject(
 		}
 		if !renamed {
 			db.bucketFs.Remove(tmpFilePath)
+			// a refused upload must not leave the directories created for it behind:
+			removeEmptyParents(db.bucketFs, bucketName, objectPath)
 		}
 	}()
 
